@@ -314,9 +314,13 @@ def run_orchestrated(case, algo, params, nagents, dist_kind, seed, timeout=20.0,
             def pr():
                 time.sleep(0.15 + rng.random() * 0.2)
                 try:
-                    orch.mgt._request_pause()
+                    # executed on the orchestrator's own thread, through the same indirect call the orchestrator uses
+                    # for its management methods (a scenario event does the same pause / resume requests)
+                    orch.mgt._pv_pause = lambda msg, t: orch.mgt._request_pause()
+                    orch.mgt._pv_resume = lambda msg, t: orch.mgt._request_resume()
+                    orch._mgt_method("_pv_pause", None)
                     time.sleep(0.05 + rng.random() * 0.1)
-                    orch.mgt._request_resume()
+                    orch._mgt_method("_pv_resume", None)
                 except Exception as e:
                     out["errors"].append("pause/resume: %s" % e)
             threading.Thread(target=pr, name="pv_pause_resume", daemon=True).start()
